@@ -53,7 +53,7 @@ Requirements for the change:
 Deliverables, all under {wt}/out/ (create the directory):
 1. `patch.diff` — output of `git -C {wt} diff` (only files under src/kyupy).
 2. `demo.py` — a small stand-alone program (uses only kyupy + numpy) that exits 0 on the ORIGINAL code and exits 1 (printing what is wrong)
-   with your change applied; run it both ways to confirm (`git -C {wt} stash` / `stash pop`), with PYTHONPATH={wt}/src.
+   with your change applied; run it both ways to confirm (inside your worktree: `git diff > out/p.diff; git apply -R out/p.diff; ...; git apply out/p.diff` -- never `git stash`, which is shared between worktrees), with PYTHONPATH={wt}/src.
 3. `meta.json` — {{"property": "{p['id']}", "summary": "...", "needs": "what specific input/sequence/option it needs in order to manifest",
    "files": [...], "tests_pass": true}}.
 Final answer: the summary, what it needs to manifest, and confirmation that (a) the 31 tests pass with the change, (b) demo.py fails with
